@@ -153,13 +153,35 @@ def _fold_arith(e: ast.AST, known: Dict[str, ast.AST]) -> Optional[ast.AST]:
     ops = {ast.Add: operator.add, ast.Sub: operator.sub, ast.Mult: operator.mul, ast.FloorDiv: operator.floordiv, ast.Pow: operator.pow, ast.LShift: operator.lshift}
 
     def ev(x):
-        if isinstance(x, ast.Constant) and isinstance(x.value, int) and not isinstance(x.value, bool):
+        if isinstance(x, ast.Constant) and isinstance(x.value, (int, bytes, str)) and not isinstance(x.value, bool):
             return x.value
-        if isinstance(x, ast.Name) and x.id in known and isinstance(known[x.id], ast.Constant) and isinstance(known[x.id].value, int):
+        if isinstance(x, ast.Name) and x.id in known and isinstance(known[x.id], ast.Constant) and isinstance(known[x.id].value, (int, bytes, str)) \
+                and not isinstance(known[x.id].value, bool):
             return known[x.id].value
+        if isinstance(x, ast.Call) and isinstance(x.func, ast.Attribute) and isinstance(x.func.value, ast.Name) and x.func.value.id == "struct" and x.func.attr == "calcsize" \
+                and len(x.args) == 1 and not x.keywords:
+            f_ = ev(x.args[0])
+            if isinstance(f_, str):
+                import struct as _struct
+                try:
+                    return _struct.calcsize(f_)  # (a property of the format text, the same on every platform for the explicit-order formats)
+                except Exception:
+                    return None
+            return None
+        if isinstance(x, ast.Call) and isinstance(x.func, ast.Name) and x.func.id == "len" and len(x.args) == 1 and not x.keywords:
+            a = ev(x.args[0])
+            return len(a) if isinstance(a, (bytes, str)) else None
         if isinstance(x, ast.BinOp) and type(x.op) in ops:
             a, b = ev(x.left), ev(x.right)
-            if a is None or b is None or (isinstance(x.op, (ast.Pow, ast.LShift)) and not (0 <= b <= 64)) or (isinstance(x.op, ast.FloorDiv) and b == 0):
+            if a is None or b is None or (isinstance(x.op, (ast.Pow, ast.LShift)) and not (isinstance(b, int) and 0 <= b <= 64)) or (isinstance(x.op, ast.FloorDiv) and b == 0):
+                return None
+            if isinstance(a, (bytes, str)) or isinstance(b, (bytes, str)):
+                # octet / text constants: repetition by a small count and concatenation of the same kind only
+                if isinstance(x.op, ast.Mult) and ((isinstance(a, (bytes, str)) and isinstance(b, int)) or (isinstance(a, int) and isinstance(b, (bytes, str)))):
+                    n_ = b if isinstance(b, int) else a
+                    return (a * b) if 0 <= n_ <= 64 else None
+                if isinstance(x.op, ast.Add) and type(a) is type(b):
+                    return a + b
                 return None
             return ops[type(x.op)](a, b)
         if isinstance(x, ast.UnaryOp) and isinstance(x.op, ast.USub):
@@ -169,6 +191,8 @@ def _fold_arith(e: ast.AST, known: Dict[str, ast.AST]) -> Optional[ast.AST]:
     if not any(isinstance(y, ast.Name) for y in ast.walk(e)):
         return None  # plain literal arithmetic stays as written (`2 ** 31 - 1` is what the reference tree has)
     v = ev(e)
+    if isinstance(v, (bytes, str)) and isinstance(e, (ast.Name, ast.Constant)):
+        return None
     return None if v is None else ast.copy_location(ast.Constant(value=v), e)
 
 
@@ -240,6 +264,15 @@ def normalise(parsed: List[Tuple[str, ast.Module, bool]]) -> Dict[str, List[str]
                 if v is not None:
                     consts.setdefault(module, {})[n] = v
                     log.setdefault(module, []).append(f"{module}:{n} = constant expression (folded)")
+        # ... whatever their order in the file (a constant may use one that is spelled later in the alphabet)
+        for _round in range(3):
+            for n in new_g:
+                if n in consts.get(module, {}) or n in fn_renames.get(module, {}) or len(g[n]) != 1 or stores.get(n, 0) != 1:
+                    continue
+                v = _fold_arith(g[n][0], consts.get(module, {}))
+                if v is not None:
+                    consts.setdefault(module, {})[n] = v
+                    log.setdefault(module, []).append(f"{module}:{n} = constant expression (folded)")
     meth_renames = {k: v for k, v in meth_renames.items() if v != "\0"}
     # ---- new private class-level literal constants (`_IV_SIZE = 96` in a class body, read as self._IV_SIZE / cls._IV_SIZE / Class._IV_SIZE): folded when the
     # attribute name is bound exactly once in the whole package (no subclass can give it another value, nothing stores to it)
@@ -256,6 +289,7 @@ def normalise(parsed: List[Tuple[str, ast.Module, bool]]) -> Dict[str, List[str]
             elif isinstance(x, ast.Call) and isinstance(x.func, ast.Name) and x.func.id in ("setattr", "delattr") and len(x.args) >= 2 and isinstance(x.args[1], ast.Constant):
                 attr_binds[str(x.args[1].value)] = attr_binds.get(str(x.args[1].value), 0) + 1
     class_consts: Dict[str, ast.AST] = {}
+    holder_consts: Dict[str, Dict[str, ast.AST]] = {}  # constants class name -> {NAME: literal}
     class_consts_local: Dict[str, Dict[str, ast.AST]] = {}
     for module, tree, _k in parsed:
         for c in ast.walk(tree):
@@ -267,6 +301,12 @@ def normalise(parsed: List[Tuple[str, ast.Module, bool]]) -> Dict[str, List[str]
                             and f"{module}:{c.name}.{tg.id}" not in ref_g and attr_binds.get(tg.id) == 1:
                         class_consts[tg.id] = v
                         log.setdefault(module, []).append(f"{module}:{c.name}.{tg.id} = literal (folded)")
+                    elif isinstance(tg, ast.Name) and not tg.id.startswith("_") and v is not None and _literal(v) and c.name.startswith("_") and not c.bases \
+                            and f"{module}:{c.name}.{tg.id}" not in ref_g and not any(q.startswith(f"{module}:{c.name}.") for q in ref_g) \
+                            and not any(isinstance(m_, (ast.FunctionDef, ast.AsyncFunctionDef)) for m_ in c.body):
+                        # a new private class that only holds named constants (`class _Claim: AUD = "aud"`), read as `_Claim.AUD`
+                        holder_consts.setdefault(c.name, {})[tg.id] = v
+                        log.setdefault(module, []).append(f"{module}:{c.name}.{tg.id} = literal of a constants class (folded)")
                     elif isinstance(tg, ast.Name) and tg.id.startswith("_") and not tg.id.startswith("__") and v is not None \
                             and f"{module}:{c.name}.{tg.id}" not in ref_g and attr_binds.get(tg.id) == 1:
                         # a tuple of names this module imports (`_sign_key_types = (Ed25519PrivateKey, Ed448PrivateKey)`): as constant as a literal, but
@@ -278,6 +318,26 @@ def normalise(parsed: List[Tuple[str, ast.Module, bool]]) -> Dict[str, List[str]
                         if _tuple_of_imports(v, tree, mstores):
                             class_consts_local.setdefault(module, {})[tg.id] = v
                             log.setdefault(module, []).append(f"{module}:{c.name}.{tg.id} = tuple of imported names (folded)")
+    # a constants class is only folded when its name is unique in the package and nothing stores to it
+    seen_cls: Dict[str, int] = {}
+    for module, tree, _k in parsed:
+        for c in ast.walk(tree):
+            if isinstance(c, ast.ClassDef):
+                seen_cls[c.name] = seen_cls.get(c.name, 0) + 1
+    holder_consts = {k: v for k, v in holder_consts.items() if seen_cls.get(k) == 1}
+    for module, tree, _k in parsed:
+        for x in ast.walk(tree):
+            if isinstance(x, ast.Attribute) and isinstance(x.ctx, (ast.Store, ast.Del)) and isinstance(x.value, ast.Name) and x.value.id in holder_consts:
+                holder_consts.pop(x.value.id, None)
+    if holder_consts:
+        for module, tree, _k in parsed:
+            class HC(ast.NodeTransformer):
+                def visit_Attribute(self, n: ast.Attribute):
+                    self.generic_visit(n)
+                    if isinstance(n.ctx, ast.Load) and isinstance(n.value, ast.Name) and n.value.id in holder_consts and n.attr in holder_consts[n.value.id]:
+                        return ast.copy_location(copy.deepcopy(holder_consts[n.value.id][n.attr]), n)
+                    return n
+            HC().visit(tree)
     if class_consts or class_consts_local:
         for module, tree, _k in parsed:
             cc = dict(class_consts)
